@@ -25,6 +25,9 @@ IMG_DATA = {
     "I2": [[[0.0, 2.0], [1.0, 1.5]], [[-0.25, 0.5], [0.75, 1.0]]],
     "I3": [[[0.1, 0.4]], [[0.3, 1.0], [0.2, 0.9], [0.2, 0.9]], [[0.0, 3.0], [2.0, 2.5]]],
     # a collection in which the SAME array object occurs several times (bootstrap resample, [d] * 3)
+    # a collection of 7 diagrams of different sizes (batching / chunking paths)
+    "I7": [[[0.1, 0.4]], [[0.3, 1.0], [0.2, 0.9]], [[0.0, 2.0], [1.0, 1.5], [0.5, 0.75]], [[0.25, 0.5]], [[0.0, 3.0], [2.0, 2.5]],
+           [[1.0, 1.25], [1.5, 2.75], [0.0, 0.5], [0.75, 1.0]], [[0.6, 2.2]]],
     "I4": {"diagrams": [[[0.5, 1.5], [1.0, 1.25]], [[0.25, 2.0]]], "pattern": [0, 1, 0, 0]},
 }
 THOROUGH_ONLY = {"I5", "I6", "L4", "L5"}
